@@ -35,7 +35,8 @@ def _skolemize(g):
     """forall q. P(q) as a goal  ->  P(q0) for a fresh constant q0 (equivalent for validity)."""
     if z3.is_quantifier(g) and g.is_forall() and g.num_vars() == 1 and g.var_sort(0) == z3.IntSort():
         q0 = z3.Int(sym.fresh_name("sk." + g.var_name(0).split("!")[0]))
-        return z3.substitute_vars(g.body(), q0), [q0]
+        inner, qs = _skolemize(z3.substitute_vars(g.body(), q0))  # nested universal quantifiers too
+        return inner, [q0] + qs
     if z3.is_implies(g):
         a, b = g.children()
         b2, qs = _skolemize(b)
@@ -48,6 +49,18 @@ def _skolemize(g):
             qs.extend(q)
         return (z3.And(*parts), qs) if qs else (g, [])
     return g, []
+
+
+def _instances(h, skolems, depth):
+    """All instances of a (possibly nested) universally quantified fact at the given constants (positive positions)."""
+    if z3.is_quantifier(h) and h.is_forall() and h.num_vars() == 1 and h.var_sort(0) == z3.IntSort() and depth < 3:
+        return z3.And(*[_instances(z3.substitute_vars(h.body(), q), skolems, depth + 1) for q in skolems])
+    if z3.is_implies(h):
+        a, b = h.children()
+        return z3.Implies(a, _instances(b, skolems, depth))
+    if z3.is_and(h):
+        return z3.And(*[_instances(c, skolems, depth) for c in h.children()])
+    return h
 
 
 def _int_consts(exprs, limit=4000):
@@ -139,10 +152,10 @@ class Engine(ExprMixin, CallMixin, ContractMixin, BuiltinMixin, StmtMixin, LoopM
         if skolems:
             # engine-side instantiation: every universally quantified fact of the path condition is
             # instantiated at the skolem constants of the goal (valid instances; the facts stay too)
+            terms = list(skolems) + [q - 1 for q in skolems]  # index-shifted instances (insert / pop shift by one)
             for h in list(pc):
                 if z3.is_quantifier(h) and h.is_forall() and h.num_vars() == 1 and h.var_sort(0) == z3.IntSort():
-                    for q in skolems:
-                        pc.append(z3.substitute_vars(h.body(), q))
+                    pc.append(_instances(h, terms, 0))
         ob = Obligation(oid, kind, label, pc, g, getattr(node, "lineno", 0), list(st.trace))
         if z3.is_true(g):
             ob.status, ob.backend = "unsat", "simplify"
@@ -206,7 +219,10 @@ class Engine(ExprMixin, CallMixin, ContractMixin, BuiltinMixin, StmtMixin, LoopM
         ptypes = self.param_types(mod, fnode, fs, fr.cls)
         a = fnode.args
         if a.vararg or a.kwarg:
-            raise EngineError("*args/**kwargs in a function under contract")
+            used = {n.id for n in ast.walk(fnode) if isinstance(n, ast.Name)}
+            if a.vararg or a.kwarg.arg in used:
+                raise EngineError("*args/**kwargs in a function under contract")
+            # an unused **kwargs catch-all has no influence on the body
         for p in a.posonlyargs + a.args + a.kwonlyargs:
             t = ptypes.get(p.arg)
             if t is None:
